@@ -192,6 +192,11 @@ static void htp_gzip_decompressor_end(htp_decompressor_gzip_t *drec) {
         inflateEnd(&drec->stream);
         drec->zlib_initialized = 0;
     }
+
+    // Whatever is in the output buffer has been handed to the callback
+    // already: forget it, so that it is not flushed again by later calls.
+    drec->stream.avail_out = GZIP_BUF_SIZE;
+    drec->stream.next_out = drec->buffer;
 }
 
 /**
